@@ -87,7 +87,6 @@ package setec
 //@   ensures [C12 shared lookupfn.inv] storeInv(s) && !s.active.Mutex && handlesKept(s)
 //@   ensures [C12 shared lookupfn.values-kept] forall n string :: (n != name && old(has(s.active.m, n))) ==> (has(s.active.m, n) && s.active.m[n] == old(s.active.m[n]) && s.active.m[n].Secret == old(s.active.m[n].Secret) && s.active.m[n].Declared == old(s.active.m[n].Declared))
 //@   ensures [C12 lookupfn.others-kept] forall n string :: n != name ==> (has(s.active.m, n) == old(has(s.active.m, n)) && (has(s.active.m, n) ==> s.active.m[n].Secret == old(s.active.m[n].Secret)))
-//@   ensures [C16 lookupfn.ran] ran
 //@   at call Get: assert [C12 lookupfn.no-request-under-lock] !s.active.Mutex
 //@   at call Get: assert [C16 lookupfn.fallback-5min] hasDeadline(arg_ctx) && (!hasDeadline(ctx) ==> deadlineOf(arg_ctx) <= clock + 300000000000)
 
@@ -97,11 +96,11 @@ package setec
 //@   ensures [C12 lookupint.values-kept] !old(has(s.active.m, name)) ==> valuesKept(s)
 //@   ensures [C16 lookupint.success] err == nil ==> (sec != nil && has(s.active.m, name) && has(s.active.f, name))
 //@   ensures [C16 lookupint.fail] err != nil ==> sec == nil
-//@   ensures [C16 lookupint.not-failed-by-others-cancellation] (err != nil && (errIs(err, context.DeadlineExceeded) || errIs(err, context.Canceled)) && ctxErrAt(ctx, clock) == nil) ==> ran
+//@   ensures [C16 lookupint.not-failed-by-others-cancellation] (err != nil && (errIs(err, context.DeadlineExceeded) || errIs(err, context.Canceled)) && ctxErrAt(ctx, clock) == nil) ==> sfWon
 //@   loop 0
 //@     invariant [state] storeInv(s) && !s.active.Mutex && ctx != nil && s.client != nil && handlesKept(s)
 //@     invariant [values] !old(has(s.active.m, name)) ==> valuesKept(s)
-//@     progress [C16 lookupint.retry-only-others-failure] !ran && lastCtxErr == nil
+//@     progress [C16 lookupint.retry-only-others-failure] !sfWon && lastCtxErr == nil
 
 // ---- file client ---------------------------------------------------------------------------
 //@ func (*FileClient).Get(fc, ctx, name) (sv, err)
